@@ -424,3 +424,122 @@ FREEZE = Contract(
 FREEZE.no_callee = True
 FREEZE.label = "phase / loss / reflectivity parameters, a plain value, a group"
 CONTRACTS += [FREEZE]
+
+
+# ---------------------------------------------------------------------------------------------- ModeSwaps.__post_init__ (C01 / C09)
+COMP = "lightworks/sdk/circuit/components.py"
+
+
+def _ms_obj(k):
+    def build(ex, name):
+        import z3
+        from vf.pyvc.values import CDict, Obj
+        d = ex.alloc(CDict(tuple((z3.Int(f"swaps_k{i}"), z3.Int(f"swaps_v{i}")) for i in range(k))), f"{name}.swaps")
+        return ex.alloc(Obj("ModeSwaps", (("swaps", d),)), name)
+    build.label = f"ModeSwaps of {k} entries"
+    return build
+
+
+def _complete(k):
+    """a swap dictionary is complete: its values are its keys in some order (keys of a dict are pairwise distinct)"""
+    ks = [f"swaps_k{i}" for i in range(k)]
+    vs = [f"swaps_v{i}" for i in range(k)]
+    out = [f"{a} != {b}" for i, a in enumerate(vs) for b in vs[i + 1:]]
+    out += ["(" + " or ".join(f"{v} == {a}" for a in ks) + ")" for v in vs]
+    return " and ".join(out) if out else "True"
+
+
+def _post_init(k):
+    ks = [f"swaps_k{i}" for i in range(k)]
+    c = Contract(
+        target=f"{COMP}:ModeSwaps.__post_init__",
+        types={"self": _ms_obj(k), **{f"swaps_{a}{i}": "int" for i in range(k) for a in "kv"}},
+        requires=[f"{a} != {b}" for i, a in enumerate(ks) for b in ks[i + 1:]],
+        modifies=[],
+        ensures={"accepted_unchanged": f"len(self.swaps) == {k}"},
+        # exactly the incomplete dictionaries are refused (the test in the code compares the sorted keys with the sorted values)
+        raises={"ValueError": f"not ({_complete(k)})"},
+        exc_frame=True,
+        props=["C01", "C09"],
+    )
+    c.no_callee = True
+    c.label = f"{k} entries"
+    return c
+
+
+POSTINIT = [_post_init(k) for k in range(0, 5)]
+CONTRACTS += POSTINIT
+
+
+# ---------------------------------------------------------------------------------------------- Circuit.copy / Circuit.__add__ (C08 / C09)
+def _circuit_with_spec(kinds):
+    """a Circuit whose spec has a concrete spine (component fields symbolic), every other attribute symbolic"""
+    def build(ex, name):
+        import z3
+        from vf.pyvc.values import Obj
+        spec = _frozen_spec(kinds)(ex, f"{name}.__circuit_spec")
+        f = lambda a, t: ex.make(f"{name}.{a}", t, f"{name}.{a}")       # noqa: E731
+        return ex.alloc(Obj("Circuit", (("_Circuit__n_modes", z3.Int(f"{name}.__n_modes")), ("_Circuit__internal_modes", f("__internal_modes", "list[int]")),
+                                         ("_Circuit__in_heralds", f("__in_heralds", "dict[int,int]")), ("_Circuit__out_heralds", f("__out_heralds", "dict[int,int]")),
+                                         ("_Circuit__external_in_heralds", f("__external_in_heralds", "dict[int,int]")),
+                                         ("_Circuit__external_out_heralds", f("__external_out_heralds", "dict[int,int]")), ("_Circuit__circuit_spec", spec))), name)
+    build.label = "Circuit with spec " + repr(kinds)
+    return build
+
+
+def _same_dict(a, b):
+    return f"len({a}) == len({b}) and forall(x, (x in {a}) == (x in {b})) and forall(x, implies(x in {a}, {a}[x] == {b}[x]))"
+
+
+COPY = Contract(
+    target=f"{CIRC}:Circuit.copy",
+    types={"self": _circuit_with_spec(("PSP", "BSP", G("LOSSP"))), "freeze_parameters": ["const:False", "const:True"]},
+    requires=[], modifies=[],
+    ensures={
+        "a_new_circuit": "fresh_ref(result) and fresh_ref(result.__circuit_spec) and fresh_ref(result.__in_heralds) and fresh_ref(result.__out_heralds) and "
+                         "fresh_ref(result.__external_in_heralds) and fresh_ref(result.__external_out_heralds) and fresh_ref(result.__internal_modes)",
+        "same_size_and_heralds": "result.__n_modes == self.__n_modes and " + _same_dict("result.__in_heralds", "self.__in_heralds") + " and " +
+                                 _same_dict("result.__out_heralds", "self.__out_heralds") + " and " + _same_dict("result.__external_in_heralds", "self.__external_in_heralds") +
+                                 " and " + _same_dict("result.__external_out_heralds", "self.__external_out_heralds"),
+        "same_ancillas": "len(result.__internal_modes) == len(self.__internal_modes) and forall(t, implies(0 <= t and t < len(self.__internal_modes), "
+                         "at(result.__internal_modes, t) == at(self.__internal_modes, t)))",
+        "same_components_in_order": "len(result.__circuit_spec) == 3 and isinstance(result.__circuit_spec[0], PhaseShifter) and isinstance(result.__circuit_spec[1], BeamSplitter) "
+                                    "and isinstance(result.__circuit_spec[2], Group) and result.__circuit_spec[0].mode == self.__circuit_spec[0].mode and "
+                                    "result.__circuit_spec[1].mode_1 == self.__circuit_spec[1].mode_1 and result.__circuit_spec[1].mode_2 == self.__circuit_spec[1].mode_2",
+        # a plain copy stays bound to the same Parameter objects (they are live); a frozen copy holds the values of this moment and no Parameter
+        "frozen_values_of_the_moment": "implies(freeze_parameters, result.__circuit_spec[0].phi == self.__circuit_spec[0].phi._Parameter__value and "
+                                       "result.__circuit_spec[1].reflectivity == self.__circuit_spec[1].reflectivity._Parameter__value and "
+                                       "result.__circuit_spec[2].circuit_spec[0].loss == self.__circuit_spec[2].circuit_spec[0].loss._Parameter__value)",
+        "plain_copy_keeps_the_parameter_objects": "implies(not freeze_parameters, result.__circuit_spec[0].phi is self.__circuit_spec[0].phi and "
+                                                  "result.__circuit_spec[1].reflectivity is self.__circuit_spec[1].reflectivity)",
+        "original_unchanged": "len(self.__circuit_spec) == 3 and isinstance(self.__circuit_spec[0].phi, Parameter) and isinstance(self.__circuit_spec[2].circuit_spec[0].loss, Parameter)",
+    },
+    raises={}, props=["C09", "C08", "C10"],
+    inline=["_freeze_params"],
+)
+COPY.no_callee = True
+COPY.label = "phase shifter, beam splitter, group; plain and frozen"
+CONTRACTS += [COPY]
+
+
+PLUS = Contract(
+    target=f"{CIRC}:Circuit.__add__",
+    types={"self": _circuit_with_spec(("PSP", "BSP")), "value": [_circuit_with_spec(("PS", G("LOSSP"))), "int"]},
+    requires=[], modifies=[],
+    ensures={
+        "a_new_circuit": "fresh_ref(result) and fresh_ref(result.__circuit_spec) and result.__n_modes == self.__n_modes",
+        # the components of the first circuit, then those of the second, the same component objects in the same order
+        "specs_concatenated": "len(result.__circuit_spec) == 4 and result.__circuit_spec[0] is self.__circuit_spec[0] and result.__circuit_spec[1] is self.__circuit_spec[1] and "
+                              "result.__circuit_spec[2] is value.__circuit_spec[0] and result.__circuit_spec[3] is value.__circuit_spec[1]",
+        "no_heralds": "len(result.__in_heralds) == 0 and len(result.__out_heralds) == 0 and len(result.__internal_modes) == 0",
+        "operands_unchanged": "len(self.__circuit_spec) == 2 and len(value.__circuit_spec) == 2",
+    },
+    raises={"TypeError": "not isinstance(value, Circuit)",
+            "ModeRangeError": "isinstance(value, Circuit) and self.__n_modes != value.__n_modes",
+            "NotImplementedError": "isinstance(value, Circuit) and self.__n_modes == value.__n_modes and (len(self.__in_heralds) > 0 or len(value.__in_heralds) > 0)"},
+    exc_frame=True,
+    props=["C08", "C09"],
+)
+PLUS.no_callee = True
+PLUS.label = "two circuits / a circuit and a number"
+CONTRACTS += [PLUS]
